@@ -28,11 +28,73 @@ def canonical_keys(p):
     return True
 
 
+def with_unknown_members(p, rng):
+    """the payload with one or two members no field knows added to every object (ignored without deny_unknown_fields,
+    reported with it): where they sit among the other members must not matter either"""
+    q = copy.deepcopy(p)
+    for path in reversed(list(objects(q))):       # innermost first: inserting shifts the positions of later siblings only
+        ms = K.get_at(q, path)["m"]
+        for _ in range(rng.choice([1, 1, 2])):
+            k = rng.choice(["aa_unknown", "zz_unknown", "m_unknown", "unknown", "Zz", "0"])
+            if all(k != x[0] for x in ms):
+                ms.insert(rng.randint(0, len(ms)), [k, copy.deepcopy(rng.choice(K.WRONG))])
+    return q
+
+
+def full_objects(it, rng):
+    """for a derived struct / every struct-like variant of a tagged enum: the object with EVERY non-skipped field present
+    (declaration order, tag first)"""
+    out = []
+    if it.get("from") or it.get("try_from"):
+        return out
+    if it.kind == "struct":
+        out.append([[key, K.gen_valid(f.deser_ty(), rng, 1)] for f, key in K.field_keys(it.fields, K.item_ra(it))])
+    elif it.kind == "enum" and it.get("tag"):
+        for v in it.variants:
+            ms = [[key, K.gen_valid(f.deser_ty(), rng, 1)] for f, key in K.field_keys(v.fields or [], K.variant_ra(v))]
+            out.append([[it.get("tag")[1], K.variant_key(it, v)]] + ms)
+    return out
+
+
+def unknown_everywhere(ms, rng):
+    """(reference, variant) pairs: one member no field knows, last in the reference, at every other position in the variants;
+    and the same with the object reversed - so that the member sits between any two consecutive fields in both directions"""
+    unk = ["zz_unknown", copy.deepcopy(rng.choice(K.WRONG))]
+    if any(k == unk[0] for k, _ in ms):
+        return []
+    out = []
+    for base in (ms, list(reversed(ms))):
+        ref = {"m": copy.deepcopy(base) + [copy.deepcopy(unk)]}
+        for i in range(len(base)):
+            out.append((ref, {"m": copy.deepcopy(base[:i]) + [copy.deepcopy(unk)] + copy.deepcopy(base[i:])}))
+    return out
+
+
 def run(ctx, H):
     per = 6 if ctx.tier == "quick" else 40
     pairs = []
+    # an ignored (or denied) member at every position of an object that has all its fields
     for e in H.entries:
-        for p, k in K.gen_payloads(e, ctx.rng, per):
+        if e.ty[0] != "item":
+            continue
+        for ms in full_objects(e.ty[1], ctx.rng):
+            if len(ms) > 8 and ctx.tier == "quick":
+                continue
+            for ref, var in unknown_everywhere(ms, ctx.rng):
+                if canonical_keys(ref) and not K.has_dup_keys(ref):
+                    pairs.append((E.Case(e, ref, "ov", [], True, "cont", -1), E.Case(e, var, "ov", [], True, "cont", -1)))
+    n_everywhere = len(pairs)
+    for e in H.entries:
+        payloads = list(K.gen_payloads(e, ctx.rng, per))
+        if K.contains_item(e.ty) or e.ty[0] == "item":
+            nbase = 2 if ctx.tier == "quick" else 8
+            if e.ty[0] == "item" and e.ty[1].kind == "enum":
+                nbase *= max(1, len(e.ty[1].variants))       # every variant gets its turn
+            for _ in range(nbase):
+                base = K.gen_valid(e.ty, ctx.rng)
+                payloads.append((with_unknown_members(base, ctx.rng), -1))
+                payloads.append((with_unknown_members(K.mutate_once(base, ctx.rng), ctx.rng), -1))
+        for p, k in payloads:
             if K.has_dup_keys(p) or not canonical_keys(p):
                 continue
             objs = [o for o in objects(p) if len(K.get_at(p, o)["m"]) >= 2]
@@ -65,10 +127,11 @@ def run(ctx, H):
     flat = [p[1] for p in pairs]
     ctx.coverage.update({
         "evaluations": 2 * len(pairs), "distinct_nontrivial": E.nontrivial(flat, o2),
-        "rule": "every catalogue type x payloads (valid instances with 0..3 mutations, unique keys per object, key strings canonical for the key parser) x permutations of the members of "
+        "rule": "every catalogue type x payloads (valid instances with 0..3 mutations, and instances with unknown members added to every object; unique keys per object, key strings canonical for the key parser) x permutations of the members of "
+                "one object; plus, for every derived struct and every variant of every tagged enum, the object with all its fields and one unknown member at every position, forwards and reversed; permutations of "
                 "one object at any depth (all permutations for <= 4 members, random beyond; sometimes a second object reversed), through the order-preserving value source, all-Continue "
                 "script; non-trivial = distinct (type, permuted payload) whose run reports something or returns Ok",
-        "pairs": len(pairs),
+        "pairs": len(pairs), "pairs_unknown_member_at_every_position": n_everywhere,
         "input_distribution": E.distribution(flat, o2),
         "samples": [{"type": pairs[i][0].entry.rust(), "payload": pairs[i][0].payload, "permuted": pairs[i][1].payload} for i in (0, len(pairs) // 2)],
         "correspondence_disagreements": bads[0].total, "monitor_failures": bads[1].total + bads[2].total,
